@@ -206,7 +206,12 @@ func newDetectionStateFromMonotonicNumbers(monotonicNumbers []*info.PageInfo, is
 		// If feasible, insert current document URL as first page.
 		// Otherwise, we enhance the heuristic: if current document URL fits the paging pattern
 		// of the potential pagination URLs, consider it as first page too.
-		docURL := strings.TrimSuffix(parsedDocURL.String(), "/")
+		docURL := parsedDocURL.String()
+		if parsedDocURL.RawQuery == "" && parsedDocURL.Fragment == "" {
+			// Only a slash that ends the path may be dropped; one that ends
+			// a query value is part of the URL.
+			docURL = strings.TrimSuffix(docURL, "/")
+		}
 		if pageParamInfo.CanInsertFirstPage(docURL, monotonicNumbers) {
 			pageParamInfo.InsertFirstPage(docURL)
 		} else if candidate.pagePattern.IsPagingURL(docURL) {
